@@ -11,6 +11,9 @@ extern "C" {
 }
 #include "api/c/sol-handler-c-impl.h"
 #include "mp/nl-solver.h"
+#include "api/c/nl-solver-c.h"
+#include "api/c/nl-model-c.h"
+#include "../core/worker.h"
 
 namespace iosim {
 namespace {
@@ -242,6 +245,68 @@ SolReadResult read_sol(const std::string& path, const SolReadConfig& cfg) {
           if (werr.empty()) r.easy_vperm = pd.vperm_;
         }
       }
+    } else if (cfg.easy_c_party && cfg.nvars > 0 && path.size() > 4) {
+      // The C flavour of the same consumer, with a history: one NLW2_NLSolver_C object reads an earlier solution of the same
+      // model (two suffixes of its own) and then the file under test; what it returns for the second must be the second's.
+      const int n = cfg.nvars, m = std::max(0, cfg.ncons);
+      std::vector<double> lb((size_t)n, 0.0), ub((size_t)n, 10.0), c((size_t)n, 1.0), rlb((size_t)m, -5.0), rub((size_t)m, 50.0), aval;
+      std::vector<int> ty((size_t)n), aidx; std::vector<size_t> astart;
+      for (int j = 0; j < n; ++j) ty[(size_t)j] = (j % 2 == 0);
+      for (int i = 0; i < m; ++i) { astart.push_back(aidx.size()); aidx.push_back(i % n); aval.push_back(2.0 + i); }
+      std::string sol_bytes; sim::read_file(path, sol_bytes);
+      std::string out_cap, err_cap;
+      sim::capture_begin();      // the default C utilities log to stdout / stderr
+      NLW2_NLModel_C cm = NLW2_MakeNLModel_C("c14c");
+      NLW2_SetCols_C(&cm, n, lb.data(), ub.data(), ty.data());
+      NLW2_SetRows_C(&cm, m, rlb.data(), rub.data(), NLW2_MatrixFormatRowwise, aidx.size(), astart.data(), aidx.data(), aval.data());
+      NLW2_SetLinearObjective_C(&cm, NLW2_ObjSenseMinimize, 0.0, c.data());
+      NLW2_NLUtils_C cu = NLW2_MakeNLUtils_C_Default();
+      NLW2_NLSolver_C cs = NLW2_MakeNLSolver_C(&cu);
+      const std::string stub = path.substr(0, path.size() - 4);
+      NLW2_SetFileStub_C(&cs, stub.c_str());
+      if (!NLW2_LoadNLModel_C(&cs, &cm)) { r.status = "easy-load-failed"; r.what = NLW2_GetErrorMessage_C(&cs); }
+      else {
+        std::string prior = "earlier solution\n\nOptions\n3\n0\n1\n0\n" + std::to_string(m) + "\n0\n" + std::to_string(n) + "\n" + std::to_string(n) + "\n";
+        for (int j = 0; j < n; ++j) prior += std::to_string(j + 0.5) + "\n";
+        prior += "objno 0 0\nsuffix 0 1 9 0 0\nhistsufv\n0 7\nsuffix 5 1 9 0 0\nhistsufc\n0 2.5\n";
+        if (m == 0) prior.resize(prior.find("suffix 5"));
+        sim::write_file(path, prior);
+        NLW2_NLSolution_C s0 = NLW2_ReadSolution_C(&cs); (void)s0;
+        sim::write_file(path, sol_bytes);
+        NLW2_NLSolution_C s1 = NLW2_ReadSolution_C(&cs);
+        const std::string em = NLW2_GetErrorMessage_C(&cs) ? NLW2_GetErrorMessage_C(&cs) : "";
+        r.rc = em.empty() ? 0 : 3; r.msg = em;
+        if (r.rc == 0) {
+          r.got_msg = true; r.message = s1.solve_message_ ? s1.solve_message_ : ""; r.nbs = s1.nbs_; r.got_code = s1.solve_result_ > -2; r.code = s1.solve_result_;
+          VecRec vx; vx.what = 'x'; vx.offered = s1.n_primal_values_; vx.vals.assign(s1.x_, s1.x_ + s1.n_primal_values_); vx.st.assign(vx.vals.size(), 0); vx.mode = "easy"; r.vecs.push_back(vx);
+          VecRec vy; vy.what = 'y'; vy.offered = s1.n_dual_values_; vy.vals.assign(s1.y_, s1.y_ + s1.n_dual_values_); vy.st.assign(vy.vals.size(), 0); vy.mode = "easy"; r.vecs.push_back(vy);
+          for (int k = 0; k < s1.nsuf_; ++k) {
+            const NLW2_NLSuffix_C& sf = s1.suffixes_[k];
+            SolReadResult::EasySuf es; es.name = sf.name_ ? sf.name_ : ""; es.table = sf.table_ ? sf.table_ : ""; es.kind = sf.kind_;
+            es.values.assign(sf.values_, sf.values_ + sf.numval_);
+            r.easy_sufs.push_back(es);
+          }
+        }
+      }
+      NLW2_DestroyNLSolver_C(&cs);
+      NLW2_DestroyNLUtils_C_Default(&cu);
+      NLW2_DestroyNLModel_C(&cm);
+      sim::capture_end(out_cap, err_cap);
+    } else if (cfg.c_default_party) {
+      // The library's default C callback table (what a C client starts from), completed with a Header callback
+      CRec crec{&cfg, &r};
+      NLW2_SOLHandler_C hc = NLW2_MakeSOLHandler_C_Default();
+      hc.p_user_data_ = &crec; hc.Header = c_header;
+      std::string out_cap, err_cap;
+      sim::capture_begin();      // the default message callback prints
+      {
+        mp::NLW2_SOLHandler_C_Impl wrapped(&hc);
+        auto res = mp::ReadSOLFile(path, wrapped, utils, &r.internal_rv);
+        r.rc = (int)res.first; r.msg = res.second;
+      }
+      sim::capture_end(out_cap, err_cap);
+      NLW2_DestroySOLHandler_C_Default(&hc);
+      r.got_msg = true; r.message = out_cap;
     } else if (cfg.c_party) {
       CRec crec{&cfg, &r};
       NLW2_SOLHandler_C hc; memset(&hc, 0, sizeof hc);
